@@ -270,6 +270,11 @@ class PVLParser(object):
                     parsing = True
                 else:
                     return m
+            except (LexerError, ParseError):
+                # These are not the hook declining to act: the text is
+                # malformed (and after a LexerError the token stream is
+                # finished), there is nothing left to fall back to.
+                raise
             except Exception:
                 pass
 
@@ -359,6 +364,8 @@ class PVLParser(object):
                             )
                             if not keep_parsing:
                                 raise ve
+                        except (LexerError, ParseError):
+                            raise
                         except Exception:
                             raise ve
 
